@@ -6,6 +6,7 @@ not vacuous (its sites are still found and still discriminate), in addition to t
 The site to alter is found by the same semantic search the rule uses (comparison roles, effect kinds), so a
 refactoring that keeps the rule green also keeps the plant findable."""
 import copy
+import json
 from .facts import Crate, callee_name
 from .roles import Roles
 from .report import Run
@@ -230,3 +231,192 @@ def expect_each_fires(run, rule_id, what, plants, rule_fn, *args):
         expect_fires(run, rule_id, what, None, rule_fn, *args)
     for label, c2 in plants:
         expect_fires(run, rule_id, '%s: %s' % (what, label), c2, rule_fn, *args)
+
+
+# ---- plants in generated code (fixture corpus) -------------------------------------------------------
+
+def _wrapper_bodies(ctx, name):
+    unit = name.split('::')[0]
+    cr = ctx.crate(unit)
+    out = []
+    for b in cr.named(name):
+        for x in [b] + cr.descendants(b):
+            r = ctx.role(x)
+            if r and r.endswith(':wrapper'):
+                out.append((unit, x))
+    return out
+
+
+def find_fixture_call(ctx, want, callee_pred):
+    """(unit, body, block) of the first live call in a fixture wrapper whose expectations satisfy want(v) and whose callee name
+    satisfies callee_pred; live = reachable once the scope test is folded (the sync macro emits both branches)"""
+    from .spec import Spec
+    for name in sorted(ctx.expect):
+        v = ctx.expect[name]
+        if not want(v):
+            continue
+        for unit, body in _wrapper_bodies(ctx, name):
+            live = Spec(ctx.prog, body, {}).reachable_blocks()
+            for bi, t in body.calls():
+                if bi in live and callee_pred(callee_name(t)):
+                    return unit, body, bi
+    return None
+
+
+def alter_fixture_call(ctx, site, new_last=None, drop=False):
+    if site is None:
+        return None
+    unit, body, bi = site
+
+    def edit(js):
+        bl = js['blocks'][bi]
+        if drop:
+            t = bl['term']
+            bl['term'] = {'k': 'goto', 'target': t['target'], 'span': t.get('span')}
+        else:
+            c = bl['term']['callee']
+            for k in ('path', 'id'):
+                if c.get(k):
+                    c[k] = c[k].rsplit('::', 1)[0] + '::' + new_last
+            for k in ('resolved', 'resolved_id'):
+                if k in c:
+                    c[k] = None
+    return _ctx_with_crate(ctx, unit, _clone_crate(ctx, unit, body.id, edit))
+
+
+def plant_result_stored_unconditionally(ctx):
+    """one sync Result fixture stores through `insert` instead of `insert_result`"""
+    s = find_fixture_call(ctx, lambda v: v['ret'].startswith('Result<') and not v.get('cache_if') and v['scope'] != 'Async', lambda cn: cn.endswith('::insert_result'))
+    return alter_fixture_call(ctx, s, 'insert')
+
+
+def plant_predicate_not_consulted(ctx, which):
+    """the call of the cache_if / invalidate_on predicate of one fixture disappears"""
+    def is_pred(cn, v):
+        p = v.get(which) or ''
+        return bool(p) and cn.endswith('::' + p.rsplit('::', 1)[-1]) and not cn.startswith('cachelito_core::')
+    for name in sorted(ctx.expect):
+        v = ctx.expect[name]
+        if v.get(which):
+            s = find_fixture_call(ctx, lambda x, v=v: x is v, lambda cn, v=v: is_pred(cn, v))
+            if s is not None:
+                return alter_fixture_call(ctx, s, drop=True)
+    return None
+
+
+def plant_lookup_dropped(ctx):
+    """the cache lookup of one plain fixture wrapper disappears"""
+    s = find_fixture_call(ctx, lambda v: not v.get('cache_if') and not v.get('invalidate_on'), lambda cn: cn.startswith('cachelito_core::') and cn.endswith('Cache::get'))
+    return alter_fixture_call(ctx, s, drop=True)
+
+
+def plant_memory_store_not_selected(ctx):
+    """one fixture with max_memory stores through the plain `insert`"""
+    s = find_fixture_call(ctx, lambda v: v.get('max_memory') is not None and not v['ret'].startswith('Result<') and not v.get('cache_if'), lambda cn: cn.endswith('::insert_with_memory'))
+    return alter_fixture_call(ctx, s, 'insert')
+
+
+def plant_lossy_key_template(ctx):
+    """the default key is rendered with a precision (`{:.1?}`): the byte template of its format_args! is replaced"""
+    for b in ctx.core.bodies.values():
+        if b.js.get('impl_trait') == 'cachelito_core::keys::CacheableKey' and b.kind == 'assoc_fn':
+            found = []
+
+            def visit(o):
+                if isinstance(o, dict):
+                    if isinstance(o.get('const'), dict) and 'bytes' in o['const']:
+                        found.append(o['const'])
+                    for v in o.values():
+                        visit(v)
+                elif isinstance(o, list):
+                    for v in o:
+                        visit(v)
+            visit(b.js['blocks'])
+            if not found:
+                return None
+
+            def edit(js):
+                def rep(o):
+                    if isinstance(o, dict):
+                        if isinstance(o.get('const'), dict) and 'bytes' in o['const']:
+                            o['const']['bytes'] = [0xC5, 0, 0, 0, 0x10, 1, 0, 0]
+                        for v in o.values():
+                            rep(v)
+                    elif isinstance(o, list):
+                        for v in o:
+                            rep(v)
+                rep(js['blocks'])
+            return _ctx_with_core(ctx, _clone_core(ctx, b.id, edit))
+    return None
+
+
+def plant_thread_scope_on_shared_storage(ctx):
+    """the store field of ThreadLocalCache is no longer a thread-local key"""
+    js = ctx.core.js
+    if N.THREAD not in js['adts']:
+        return None
+    js2 = dict(js)
+    adts = dict(js['adts'])
+    a = copy.deepcopy(adts[N.THREAD])
+    for f in a['variants'][0]['fields']:
+        if f['name'] == 'cache':
+            f['ty'] = f['ty'].replace('std::thread::local::LocalKey<core::cell::RefCell<', 'once_cell::sync::Lazy<lock_api::rwlock::RwLock<')
+    adts[N.THREAD] = a
+    js2['adts'] = adts
+    return _ctx_with_core(ctx, Crate(js2, ctx.core.file))
+
+
+def plant_event_lookup_reads_tag_table(ctx):
+    """every read of `event_to_caches` outside `register` goes to `tag_to_caches` instead"""
+    REGI = 'cachelito_core::invalidation::InvalidationRegistry'
+    adt = ctx.core.adts.get(REGI)
+    if adt is None:
+        return None
+    idx = {f['name']: i for i, f in enumerate(adt['variants'][0]['fields'])}
+    if 'event_to_caches' not in idx or 'tag_to_caches' not in idx:
+        return None
+    js = ctx.core.js
+    js2 = dict(js)
+    bodies = dict(js['bodies'])
+    changed = 0
+    for bid, bj in js['bodies'].items():
+        path = bj.get('path') or ''
+        if not path.startswith(REGI + '::') or path.endswith('::register') or '::register::' in path or path.endswith('::clear') or '::new' in path:
+            continue
+        txt = json.dumps(bj)
+        if '"event_to_caches"' not in txt:
+            continue
+        b2 = copy.deepcopy(bj)
+
+        def rep(o):
+            n = 0
+            if isinstance(o, dict):
+                if o.get('name') == 'event_to_caches' and 'f' in o:
+                    o['name'] = 'tag_to_caches'
+                    o['f'] = idx['tag_to_caches']
+                    n += 1
+                for v in o.values():
+                    n += rep(v)
+            elif isinstance(o, list):
+                for v in o:
+                    n += rep(v)
+            return n
+        changed += rep(b2['blocks'])
+        bodies[bid] = b2
+    if not changed:
+        return None
+    js2['bodies'] = bodies
+    return _ctx_with_core(ctx, Crate(js2, ctx.core.file))
+
+
+def plant_check_callback_keeps_queue_slot(ctx):
+    """the queue removal of one generated conditional-invalidation callback disappears"""
+    for kind_bodies in (ctx.prog.registered['check'],):
+        for (cb, _, _) in kind_bodies:
+            if cb.crate.name not in ('fx_sync', 'fx_async'):
+                continue
+            for x in [cb] + cb.crate.descendants(cb):
+                for bi, t in x.calls():
+                    if callee_name(t) in (N.VD + 'remove', N.VD + 'retain'):
+                        return alter_fixture_call(ctx, (cb.crate.name, x, bi), drop=True)
+    return None
